@@ -169,6 +169,7 @@ CONFIGS = {
     'v7-virt': {'arch_version': 7, 'memory_system_architecture': 'VMSA', 'have_lpae': True, 'have_virt_ext': True, 'have_mp_ext': True},
     'v7-tee': {'arch_version': 7, 'have_thumbee': True},
     'v7-vfp': {'arch_version': 7, 'have_adv_simd_or_vfp': True},
+    'v7-mp': {'arch_version': 7, 'have_mp_ext': True},
     # implementation-defined vectors at address 0 / an odd place (SCTLR.VE = 1 uses them for IRQ / FIQ; the reset vector when the configuration says so)
     # reset values given by the configuration file for registers the shipped file leaves at zero (the file format allows any register class): the CPSR
     # comes out of construction already naming a banked mode, SCR / TTBCR / DACR with bits set
